@@ -153,7 +153,7 @@ func checkImage(r *fw.R, kind, view, ires, res, cs int) {
 	n := [5]int{}
 	for j := 0; j < wantH; j++ {
 		for i := 0; i < wantW; i++ {
-			q := canvas.Point{X: (float64(i) + 0.5) / dpmm, Y: imgCH - (float64(j)+0.5)/dpmm}
+			q := canvas.Point{X: (float64(i) + 0.5) / dpmm, Y: pixelY(wantH, j, dpmm)}
 			p := inv.Dot(q)
 			u, v := (p.X-x0)*sres, imgH-(p.Y-y0)*sres // source pixel coordinates, v down
 			// distance to the border of the image and to the quadrant lines, in source pixels
